@@ -11,8 +11,12 @@
 //         l = history mode: every call is bracketed by ticks of one seq_cst atomic counter (invocation / response stamps)
 //   op    S:<key>:<value>:<trig+trig..|.>:<deadline>:<gen|->  store    F:<key> fetch    R:<trigger> rise
 //         D:<key> remove    C clear    Z stats           (strings hex, `-` = empty, value may be #<len>x<hexprefix>)
+//         X:<key>:<value>:<trigs>:<deadline>:<gen|->  store during which the FIRST allocation made by the calling thread throws
+//             std::bad_alloc (global operator new is replaced below; the fault is armed thread-locally right before the call).
+//             With a value of >= 16 bytes that allocation is the copy of the value in store()'s first try block, so the call takes
+//             the path  catch(std::bad_alloc) { remove(key); return; }.  Answer `x` when the fault fired, `s` when it did not.
 // answer line: tsan=<reports>[:<kinds>] ; <inv>,<res>,<result> ... ; ...     (group 0 = prefill, then one group per thread)
-//   result: h:<value>:<sorted triggers>:<deadline>:<generation> | m | s | r | d | c | z:<keys>/<triggers>
+//   result: h:<value>:<sorted triggers>:<deadline>:<generation> | m | s | x | r | d | c | z:<keys>/<triggers>
 //   values longer than 32 bytes are printed as #<len>.<fnv1a64>.  A run that does not finish in time prints HANG and exits.
 #include "cache_storage.h"
 #include "base_cache.h"
@@ -37,6 +41,40 @@ using namespace hx;
 #if defined(__SANITIZE_THREAD__) && !defined(C09_TSAN)
 #  define C09_TSAN 1
 #endif
+
+// ---- allocation fault injection: the next operator new call of the thread that armed it throws std::bad_alloc ----
+#include <new>
+static __thread int fail_new_armed = 0;
+static __thread int fail_new_fired = 0;
+static inline void *c09_alloc(size_t n)
+{
+	if(fail_new_armed) { fail_new_armed = 0; fail_new_fired = 1; throw std::bad_alloc(); }
+	void *p = malloc(n ? n : 1);
+	if(!p) throw std::bad_alloc();
+	return p;
+}
+void *operator new(size_t n) { return c09_alloc(n); }
+void *operator new[](size_t n) { return c09_alloc(n); }
+void *operator new(size_t n,std::nothrow_t const &) noexcept { return malloc(n ? n : 1); }
+void *operator new[](size_t n,std::nothrow_t const &) noexcept { return malloc(n ? n : 1); }
+void operator delete(void *p) noexcept { free(p); }
+void operator delete[](void *p) noexcept { free(p); }
+void operator delete(void *p,size_t) noexcept { free(p); }
+void operator delete[](void *p,size_t) noexcept { free(p); }
+void operator delete(void *p,std::nothrow_t const &) noexcept { free(p); }
+void operator delete[](void *p,std::nothrow_t const &) noexcept { free(p); }
+// With clang's STATIC TSan runtime these definitions do not take effect (the runtime's own operators are linked in first; that build
+// needs -Wl,--allow-multiple-definition): `probe` reports fault=inert and checks/C09.py runs the cases with X operations through a
+// second build of this file (g++ -fsanitize=thread: shared libtsan, the definitions here preempt; malloc/free stay intercepted).
+static volatile size_t fault_sink;
+static bool fault_works()
+{
+	std::string a(100,'x');
+	fail_new_fired=0; fail_new_armed=1;
+	try { std::string b(a); fault_sink=b.size(); } catch(std::bad_alloc const &) {}
+	fail_new_armed=0;
+	return fail_new_fired!=0;
+}
 
 static volatile time_t vnow = 1000;
 extern "C" time_t time(time_t *t) { time_t v = vnow; if(t) *t = v; return v; }
@@ -111,7 +149,7 @@ static std::string trigtok(std::set<std::string> const &s)
 }
 
 struct op_t {
-	char kind;                    // S F R D C Z
+	char kind;                    // S X F R D C Z
 	std::string key,val;
 	std::set<std::string> trigs;
 	time_t deadline;
@@ -133,8 +171,8 @@ struct res_t {
 static bool parse_op(std::string const &tok,op_t &o)
 {
 	std::vector<std::string> f=splitc(tok,':');
-	if(f[0]=="S" && f.size()==6) {
-		o.kind='S'; o.key=unhex(f[1]); o.val=value_of(f[2]); o.trigs=trigset(f[3]);
+	if((f[0]=="S" || f[0]=="X") && f.size()==6) {
+		o.kind=f[0][0]; o.key=unhex(f[1]); o.val=value_of(f[2]); o.trigs=trigset(f[3]);
 		o.deadline=strtoll(f[4].c_str(),0,10);
 		o.has_gen = f[5]!="-";
 		if(o.has_gen) o.gen=strtoull(f[5].c_str(),0,10);
@@ -185,6 +223,12 @@ static void *thread_main(void *p)
 			if(o.has_gen) { cppcms::uint64_t g=o.gen; c->store(o.key,o.val,o.trigs,o.deadline,&g); }
 			else c->store(o.key,o.val,o.trigs,o.deadline);
 			r.kind='s'; break;
+		case 'X':
+			fail_new_fired=0;
+			if(o.has_gen) { cppcms::uint64_t g=o.gen; fail_new_armed=1; c->store(o.key,o.val,o.trigs,o.deadline,&g); }
+			else { fail_new_armed=1; c->store(o.key,o.val,o.trigs,o.deadline); }
+			fail_new_armed=0;
+			r.kind = fail_new_fired ? 'x' : 's'; break;
 		case 'F': {
 			time_t dl=-12345; cppcms::uint64_t g=999999;
 			bool hit=c->fetch(o.key,&r.val,&r.trigs,&dl,&g);
@@ -285,7 +329,7 @@ int main()
 		std::string r;
 		try {
 			if(!v.empty() && v[0]=="mt") r=run_mt(v);
-			else if(!v.empty() && v[0]=="probe") r=std::string("probe tsan=")+tsan_mode;
+			else if(!v.empty() && v[0]=="probe") r=std::string("probe tsan=")+tsan_mode+" fault="+(fault_works() ? "works" : "inert");
 			else r="BAD-CASE";
 		}
 		catch(std::exception const &e) { r=std::string("<exception ")+e.what()+">"; }
